@@ -5,7 +5,7 @@ from tbxlint import locks, q, own, rd
 B = 'tbox::network::BufferedFd'
 N = 'tbox::network::'
 SCOPE = ['network/buffered_fd.cpp', 'network/tcp_connection.cpp', 'network/tcp_server.cpp', 'network/tcp_connector.cpp',
-         'network/tcp_client.cpp', 'network/tcp_acceptor.cpp']
+         'network/tcp_client.cpp', 'network/tcp_acceptor.cpp', 'util/buffer.cpp']
 DEFERRED_SITES = [N + 'TcpConnection::disconnect', N + 'TcpConnection::onSocketClosed', N + 'TcpServer::disconnect', N + 'TcpServer::onTcpDisconnected',
                   N + 'TcpClient::stop', N + 'TcpClient::onTcpDisconnected', N + 'TcpConnector::exitConnectingState', N + 'TcpConnector::exitReconnectDelayState']
 GUARDED_TYPES = ('BufferedFd', 'TcpConnection', 'FdEvent', 'TimerEvent')
@@ -248,4 +248,11 @@ def run(ctx):
     ctx.guard(r3, ctx, prog)
     ctx.guard(r4, ctx, prog)
     ctx.guard(r5, ctx, prog)
+    # the send queue and the receive buffer are util::Buffer objects: the byte stream is only in order / lossless if the buffer's
+    # window arithmetic is right, so the Buffer rules of C07 are part of this check as well (ids C06.B1..B4)
+    from rules import C07
+    from tbxlint.report import RuleAlias
+    actx = RuleAlias(ctx, 'C07.R', 'C06.B')
+    for g in (C07.r1_invariant, C07.r2_copies, C07.r3_post, C07.r4_independence):
+        ctx.guard(g, actx, prog)
     return prog
